@@ -15,7 +15,8 @@ import (
 func init() {
 	register(&RuleSet{
 		ID: "C03",
-		Explanation: "R1 same bytes: in endorse.SignDoc the bytes stored in the endorsement's SerializedUefiGolden and the operand of the SHA-256 whose result is signed are one SSA value, the result of the single proto.Marshal of the document; the signature stored is Signer.Sign's result; the verification core never re-serialises (C01.R1b). " +
+		Explanation: "R9 the CLI's output back end (IO.Create implementations of gcetcbendorsement/cmd) opens files replacing their contents (os.Create / os.WriteFile / O_TRUNC): re-emitted signed pieces carry no stale tail. " +
+			"R1 same bytes: in endorse.SignDoc the bytes stored in the endorsement's SerializedUefiGolden and the operand of the SHA-256 whose result is signed are one SSA value, the result of the single proto.Marshal of the document; the signature stored is Signer.Sign's result; the verification core never re-serialises (C01.R1b). " +
 			"R2 parameter agreement (siblings): every rsa.PSSOptions literal in production code is {PSSSaltLengthEqualsHash, SHA-256}; every digest handed to Signer.Sign / rsa.SignPSS / rsa.VerifyPSS comes from sha256.Sum256; certificate templates and the verifier use x509.SHA256WithRSAPSS; any extended key usage a template sets is acceptable to every x509 chain verification site of the repository (no KeyUsages = ServerAuth, Any matches all); KMS keys are created with RSA_SIGN_PSS_4096_SHA256; the documented openssl command (value of the constant format in OpensslVerifyShellCmd) names pss padding, salt length 32, sha256 digest and sha256 MGF1. " +
 			"R3 one key name: the key version handed to CA.Certificate, CA.CABundle and Signer.Sign in SignDoc is one value obtained from PrimarySigningKeyVersion. " +
 			"R4 raw output: InspectPayload / InspectSignature write the field bytes themselves (C19.R5). " +
@@ -30,6 +31,22 @@ func init() {
 }
 
 func runC03(c *Ctx) {
+	// R9: what the inspection commands emit (payload, signature, certificate) are the stored signed bytes: the CLI's
+	// output back end (in-repo implementations of the IO interface's Create in gcetcbendorsement/cmd) replaces an
+	// existing file wholly — a shorter re-emission over a longer file must not keep the old tail, or the emitted
+	// payload no longer verifies under the emitted signature.
+	{
+		var impls []*ssa.Function
+		for _, f := range c.P.RepoFunctions() {
+			if c.isTestFunc(f) || load.RelPkg(f) != "gcetcbendorsement/cmd" || f.Name() != "Create" || f.Signature.Recv() == nil || f.Blocks == nil || f.Parent() != nil || f.Synthetic != "" {
+				continue
+			}
+			impls = append(impls, f)
+		}
+		nOpen := c.wholeFileWrites("R9", impls)
+		c.S.Floor("R9", "output back ends (IO.Create implementations) of the CLI", 1, len(impls))
+		c.S.Floor("R9", "file-opening calls in their closures", 1, nOpen)
+	}
 	// R5 = C20.R1: a Cloud KMS signature is only handed to SignDoc after the service confirmed that it signed the
 	// digest that was sent (a digest damaged in transit yields a well-formed signature that does not verify).
 	c.borrow("R5/C20.", runC20, func(rule, _ string) bool { return rule == "R1" })
